@@ -5,7 +5,7 @@
     model and the result of the rectgeo model. *)
 From Coq Require Import Ascii String List Bool Arith ZArith NArith QArith Qcanon.
 From PTBase Require Import Exn PyStr PyNum PyVal Wire.
-From P Require Import Rectgeo Names Main Heading.
+From P Require Import Rectgeo Names Main Heading FileGrid.
 Import ListNotations.
 Open Scope char_scope.
 
@@ -47,7 +47,7 @@ Definition show_block (b : block str) : str :=
    end)%list.
 Definition show_conn (k : conn str) : str :=
   (hex (ka k) ++ colon ++ hex (kb k) ++ colon ++ show_nat (kdir k) ++ colon ++ show_q (kda k) ++ colon ++
-   show_q (kdb k) ++ colon ++ show_q (karea k))%list.
+   show_q (kdb k) ++ colon ++ show_q (karea k) ++ colon ++ show_q (kdcn k) ++ colon ++ show_q (kdcr k))%list.
 Definition show_pos (p : posres) : str :=
   match p with
   | PosAx x y ax ay => (show_q x ++ colon ++ show_q y ++ colon ++ show_q ax ++ colon ++ show_q ay)%list
@@ -76,7 +76,9 @@ Definition run_case (line : str) : str :=
       let nm := str_naming (nat_of_str cv) (map unhex (items ";" ls)) (map unhex (items ";" cs)) n in
       let nm' := str_naming (nat_of_str rcv) (map unhex (items ";" rls)) (map unhex (items ";" rcs)) n in
       let tbl := map parse_cn (items ";" cn) in
-      let gr := mkGrid (rect_blocks nm g) (rect_conns nm g) (cn_fun tbl) in
+      let gr0 := mkGrid (rect_blocks nm g) (rect_conns nm g) (cn_fun tbl) in
+      (* flag 4: the grid went through a data file *)
+      let gr := if str_eqb (slice 3 4 fl) (s2l "1") then file_grid str gr0 else gr0 in
       (join_with ";" (map show_block (blocks gr)) ++ tab :: join_with ";" (map show_conn (conns gr)) ++ tab ::
        show_result (rectgeo str str_eqb heading_exact (str_eqb (slice 0 1 fl) (s2l "1")) (str_eqb (slice 1 2 fl) (s2l "1")) gr
                             (match obk with "-" :: _ => None | _ => Some (unhex obk) end) (parse_q rav) (str_eqb (slice 2 3 fl) (s2l "1")) (parse_q rsnap) (nat_of_str rat) nm'))%list
